@@ -8,23 +8,21 @@ import common  # noqa  (puts /repo first on sys.path)
 import engine
 
 
+import claims
+
+
 def suites_for(prop):
     import suite_m
-    M = suite_m.SuiteM()
-    table = {
-        "C01": [M], "C02": [M], "C03": [M], "C04": [M], "C06": [M], "C08": [M], "C19": [M],
-    }
-    return table.get(prop, [])
-
-
-LEVEL = {
-    "C19": ("proof", "Tick rounding is proved in Coq over exact rationals for every tick > 0 and every price (both sides): "
-            "on-grid unchanged, result on the grid, moved by less than a tick in the passive direction. The model's rounding "
-            "is the one used by the Level-M market model, which is compared with the real Market on every run "
-            "(dyadic ticks/prices, exact equality)."),
-}
-
-EXTRA_TRUSTED = {}
+    table = {"M": suite_m.SuiteM}
+    try:
+        import suite_s
+        table["S"] = suite_s.SuiteS
+    except ImportError:
+        pass
+    c = claims.CLAIMS.get(prop)
+    if not c:
+        return []
+    return [table[n]() for n in c["suites"] if n in table]
 
 
 def main():
@@ -33,8 +31,9 @@ def main():
         return engine.replay(args[0], args[2], suites_for(args[0]))
     prop = args[0]
     tier = args[1] if len(args) > 1 else None
-    level, text = LEVEL.get(prop, ("proof", ""))
-    return engine.run_check(prop, tier, suites_for(prop), level, text, extra_trusted=EXTRA_TRUSTED.get(prop, ()))
+    c = claims.CLAIMS.get(prop, {"level": "proof", "text": ""})
+    return engine.run_check(prop, tier, suites_for(prop), c["level"], c["text"], extra_trusted=c.get("trusted", ()),
+                            extra_checks=c.get("extra_checks"))
 
 
 if __name__ == "__main__":
